@@ -263,7 +263,21 @@ def custom_tail(spec, draw, st, n=None):
     return "custom-tail/%d" % len(names)
 
 
-TRANSFORMS = [strip_const, cut_input, empty_const, variable, axis_rank1, no_quant, odd_quant, shape_signature, dead_op, dup_names, self_binary, output_is_input, wide_dtype]
+def asym_perchannel(spec, draw, st):
+    """per-channel quantised weights with non-zero zero points (what --force-symmetric-int-weights exists for)"""
+    c = [t for (oi, k, t) in _const_operands(spec) if k == 1 and spec["tensors"][t]["dtype"] == "int8" and spec["ops"][oi]["code"] in ("CONV_2D", "DEPTHWISE_CONV_2D", "FULLY_CONNECTED", "TRANSPOSE_CONV")]
+    if not c:
+        return None
+    t = draw(st.sampled_from(c))
+    T = spec["tensors"][t]
+    if isinstance(T.get("zp"), list):
+        T["zp"] = [draw(st.integers(-3, 3)) or 1 for _ in T["zp"]]
+        return "asym-perchannel"
+    T["zp"] = draw(st.integers(-5, 5)) or 2
+    return "asym-pertensor"
+
+
+TRANSFORMS = [asym_perchannel, strip_const, cut_input, empty_const, variable, axis_rank1, no_quant, odd_quant, shape_signature, dead_op, dup_names, self_binary, output_is_input, wide_dtype]
 
 
 def apply(spec, draw, st, max_n=2):
